@@ -1,4 +1,4 @@
-(** * C12 — Behaviour is deterministic.  (PARTIAL: see below)
+(** * C12 — Behaviour is deterministic.  (formerly PARTIAL for Shrink budgets other than the two extremes: now covered for every clock, see below)
 
     What determinism means for the model: the model is a total Gallina FUNCTION of the
     configuration and the operation history ([run_lines], [exec]); it has no access to a clock, to
@@ -21,11 +21,17 @@
       fields are equal. Lookups by key ([afind]) are the only way the rest of the model reads these
       lists (the dump printers sort by key, as the Go hook does).
     - storage.Shrink reads the clock for its time budget: [C12_shrink_budget_invisible] — for both
-      extreme budgets (stop after the first table that shrank / never stop) Shrink changes no
-      entity, component, value, handle, query result, only capacities; intermediate budgets stop
-      after some prefix of the same table order and are not modelled (PARTIAL): with a time budget
-      the reported memory statistics and the boolean result may legitimately differ between runs,
-      which is the documented meaning of a time-limited Shrink.
+      extreme budgets (stop after the first table that shrank / never stop) — and
+      [C12_shrink_any_budget_invisible] — for EVERY budget and EVERY clock: the model's loop takes the
+      clock as a function [clock : nat -> bool] ("has the budget expired when table idx has just been
+      processed"), nothing is assumed about it, and for every such function Shrink changes no
+      entity, component, value, handle, query result, only capacities (intermediate budgets stop
+      after some prefix of the same table order). What the clock CAN influence is how many tables
+      are brought to their target capacity per call, i.e. the reported memory statistics and the
+      boolean result, which may legitimately differ between runs: the documented meaning of a
+      time-limited Shrink; the result is nevertheless exact for the state reached and the calls
+      converge whatever the clocks do (C15, [..._any_budget]). The clock itself is the only thing
+      left unmodelled; it is quantified over.
     Handles: the pool is a LIFO free list threaded through the slots, so consecutive creations
     return the same handles in two worlds with the same history (C02/C17 theorems).
     The cross-process half of the property (same binary, two processes; same history in the four
@@ -96,6 +102,15 @@ Theorem C12_shrink_budget_invisible : forall s stop0, St s -> is_locked s = fals
                length (w_tables s') = length (w_tables s).
 Proof. exact shrink_invisible_w. Qed.
 
+(** Every budget, every clock: [w_shrink_timed clock] asks [clock idx] whether the budget has expired when
+    table [idx] has just been processed; [w_shrink stop0 = w_shrink_timed (fun _ => stop0)]. Whatever function
+    the clock is, the observable content is untouched (non-vacuity: C15_any_budget_example). *)
+Theorem C12_shrink_any_budget_invisible : forall s clock, St s -> is_locked s = false ->
+  exists b s', w_shrink_timed clock s = Ok b s' /\ St s' /\ content_same s s' /\ w_pool s' = w_pool s /\
+               w_index s' = w_index s /\ side_same s s' /\ frame_user s s' /\ w_archs s' = w_archs s /\
+               length (w_tables s') = length (w_tables s).
+Proof. exact shrink_invisible_clock_w. Qed.
+
 (** Non-vacuity: an archetype with two relation components whose lookup lists are stored in two
     different orders; freeing a table gives lookup-equal results. *)
 Definition c12_a : arch :=
@@ -111,5 +126,6 @@ Proof.
   - vm_compute. discriminate.
 Qed.
 
-Definition C12_all := (C12_free_table_map_order, C12_permutation_is_lookup_eq, C12_shrink_budget_invisible).
+Definition C12_all := (C12_free_table_map_order, C12_permutation_is_lookup_eq, C12_shrink_budget_invisible,
+  C12_shrink_any_budget_invisible).
 Print Assumptions C12_all.
